@@ -86,7 +86,8 @@ func Validate(files Files) *LoadError {
 			if !ok {
 				return &LoadError{Why: "missing layout file " + lname}
 			}
-			if findUse(lay) != nil {
+			// a @use anywhere in the layout file counts, also one in a branch or loop body that would not run
+			if len(collect(lay, tw.SUse)) > 0 {
 				return &LoadError{Why: "layout " + lname + " itself uses a layout"}
 			}
 			reserves := map[string]bool{}
